@@ -591,9 +591,12 @@ GIt(c, path, kind, w, skip, take) ==
     /\ OnlyOut
 GEdit(c, e, probes) == out' = GEditRes(c, e, probes) /\ OnlyOut
 GInt(c, path) ==
-    /\ GPath(c, path).ok => (GPath(c, path).len > 0 /\ GPath(c, path).len * W(c) <= 64)
-    /\ out' = GIntRes(c, path)
-    /\ OnlyOut
+    LET p == GPath(c, path)
+    IN  /\ p.ok => p.len > 0
+        /\ out' = IF ~p.ok THEN Panic
+                  ELSE IF p.len > 64 \div W(c) THEN [ok |-> FALSE]      \* longer than a machine word: refused
+                  ELSE GIntRes(c, path)
+        /\ OnlyOut
 GEq(c, pa, pb) == out' = GEqRes(c, pa, pb) /\ OnlyOut
 GCopy(c, path, t) ==
     LET p == GPath(c, path)
